@@ -130,7 +130,25 @@ def _match_known(known, pid, kind, key):
     return None
 
 
+def encoder_crosscheck():
+    """CPython cross-check of the expression encoder (tools/xcheck.py): symbolic terms vs CPython on every assignment of
+    small domains; a disagreement means the checker itself is broken"""
+    import importlib.util
+    spec = importlib.util.spec_from_file_location("xcheck", os.path.join(ROOT, "tools", "xcheck.py"))
+    mod = importlib.util.module_from_spec(spec)
+    spec.loader.exec_module(mod)
+    total, bad, skipped = mod.run(False)
+    return {"expressions": len(mod.SNIPPETS) - len(skipped), "evaluations": total, "disagreements": len(bad),
+            "first": [f"{e!r} at {env}: {a} / {b}" for e, env, a, b in bad[:3]]}
+
+
 def run_property(pid, prop, tier, seed, known, t0):
+    xc = None
+    if getattr(prop, "DEDUCTIVE", None):
+        xc = encoder_crosscheck()
+        if xc["disagreements"]:
+            print(f"CHECKER-ERROR property={pid} the encoding of Python disagrees with CPython: {xc['first']}")
+            return 3
     os.makedirs(os.path.join(ROOT, "replays"), exist_ok=True)
     os.makedirs(os.path.join(ROOT, "evidence"), exist_ok=True)
     ded_results = []
@@ -277,6 +295,7 @@ def run_property(pid, prop, tier, seed, known, t0):
         "samples": (obl_samples[:6] + samples[:6]) or ["none"],
         "bounded_parts": [{k: b.get(k) for k in ("name", "bound", "evaluations", "distinct_nontrivial", "rule")} for b in bounded],
         "known_findings_seen": known_lines,
+        "encoder_crosscheck": xc,
         "exhaustive": False,
     }
     # ------------------------------------------------------------------ mechanical assumption scan
